@@ -87,10 +87,15 @@ type negotiatorState struct {
 
 	// sawFeatures is set once the first features list has been handled.
 	sawFeatures bool
+
+	// cfg is the configuration of this session: one Negotiator value serves any
+	// number of sessions, also at the same time, so it cannot live in the
+	// closure.
+	cfg StreamConfig
 }
 
 func negotiator(f func(*Session, *StreamConfig) StreamConfig) Negotiator {
-	cfg := f(nil, nil)
+	initialCfg := f(nil, nil)
 	return func(ctx context.Context, in, out *stream.Info, s *Session, data interface{}) (mask SessionState, rw io.ReadWriter, restartNext interface{}, err error) {
 		nState, ok := data.(negotiatorState)
 		// If no state was passed in, this is the first negotiate call so make up a
@@ -99,8 +104,10 @@ func negotiator(f func(*Session, *StreamConfig) StreamConfig) Negotiator {
 			nState = negotiatorState{
 				doRestart: true,
 				cancelTee: nil,
+				cfg:       initialCfg,
 			}
 		}
+		cfg := nState.cfg
 
 		// This is a secret internal API that lets us use this same negotiator
 		// implementation in the websocket package without copy/pasting the entire
@@ -213,6 +220,7 @@ func negotiator(f func(*Session, *StreamConfig) StreamConfig) Negotiator {
 		}
 
 		cfg = f(s, &cfg)
+		nState.cfg = cfg
 		// Whether this is the first features list cannot be derived from data
 		// being nil: installing the tee connection is a negotiator round of its
 		// own that already passes state along.
